@@ -125,16 +125,57 @@ func Reencode(r *rand.Rand, c *cat.Catalog) *cat.Catalog {
 			switch r.Intn(3) {
 			case 0:
 				for i := range f.Ps {
+					f.Ps[i].P = nil
 					if f.Ps[i].O == 0 {
 						f.Ps[i].O = 50
 					}
 				}
 			case 1:
 				for i := range f.Ps {
+					f.Ps[i].P = nil
 					f.Ps[i].O = 60 + i // every parameter its own object
 				}
 			}
 			renumber(f)
+			// without soft groups nesting is invisible: move a random part of every object into a
+			// nested object (or flatten the nesting that was there)
+			for i := 0; i < len(f.Ps); {
+				j := i
+				for j < len(f.Ps) && f.Ps[j].O == f.Ps[i].O && f.Ps[i].O != 0 {
+					j++
+				}
+				if j == i {
+					i++
+					continue
+				}
+				switch r.Intn(3) {
+				case 0:
+					for x := i; x < j; x++ {
+						f.Ps[x].P = nil
+					}
+				case 1:
+					a := i + r.Intn(j-i)
+					for x := i; x < j; x++ {
+						f.Ps[x].P = nil
+						if x >= a {
+							f.Ps[x].P = []int{2}
+							if x > a && r.Intn(2) == 0 {
+								f.Ps[x].P = []int{2, 1}
+							}
+						}
+					}
+					// keep equal prefixes contiguous
+					deep := false
+					for x := a; x < j; x++ {
+						if len(f.Ps[x].P) == 2 {
+							deep = true
+						} else if deep {
+							f.Ps[x].P = []int{2, 1}
+						}
+					}
+				}
+				i = j
+			}
 		}
 		f.Enc.Nest = (f.Enc.Nest + 1 + r.Intn(2)) % 3
 		f.Enc.Variadic = !f.Enc.Variadic
